@@ -137,7 +137,26 @@ func rootName(e Expr) string {
 }
 
 func (g *asgGen) stmt() (Stmt, string) {
-	switch g.rng.IntN(17) {
+	switch g.rng.IntN(19) {
+	case 17, 18:
+		// one statement storing to two locations under a common (often missing) prefix: t.k1 = t.k2 = v means
+		// t.k2 = v, then t.k1 = v -- the location the right-hand side creates is kept
+		t := g.path(3)
+		k1, k2 := c09Keys[g.rng.IntN(len(c09Keys))], c09Keys[g.rng.IntN(len(c09Keys))]
+		var t1, t2 Expr = Mem(t, k1), Mem(t, k2)
+		switch g.rng.IntN(4) {
+		case 0:
+			t1 = Mem(t1, c09Keys[g.rng.IntN(len(c09Keys))])
+		case 1:
+			t2 = Mem(t2, c09Keys[g.rng.IntN(len(c09Keys))])
+		case 2:
+			t1, t2 = Idx(t, N(strconv.Itoa(g.rng.IntN(3)))), Idx(t, N(strconv.Itoa(g.rng.IntN(3))))
+		}
+		var inner Expr = Asg(t2, g.value())
+		if g.rng.IntN(2) == 0 {
+			inner = &Paren{X: inner}
+		}
+		return ES(Asg(t1, inner)), "store-chain"
 	case 0, 1, 2, 3, 4, 5:
 		t := g.path(4)
 		return ES(Asg(t, g.value())), "store"
@@ -580,6 +599,12 @@ var c09Text = []struct{ prog, want string }{
 	// a store to a member named like a method creates the member (the method is looked up only when there is no such member)
 	{"BEGIN { o = {}; o.length = 3; o.sort = 's'; o.upper = o.length + 1; print o, o.length, o.sort, o.upper }", "{\"length\": 3, \"sort\": \"s\", \"upper\": 4} 3 s 4\n"},
 	{"BEGIN { o = {k: 1}; print o.length(), o.pluck('k'); o.length = 'own'; o['pluck'] = 2; o.contains = [1]; print o.length, o }", "1 {\"k\": 1}\nown {\"contains\": [1], \"k\": 1, \"length\": \"own\", \"pluck\": 2}\n"},
+	// a location created by the right-hand side of the assignment is kept, not replaced
+	{"BEGIN { o = {}; o.b.x = o.b.y = 1; a[1].p = a[1].q = a[0] = 2; print o, a }", "{\"b\": {\"x\": 1, \"y\": 1}} [2, {\"p\": 2, \"q\": 2}]\n"},
+	{"function side() { $.m.made = $.i; return 'r' } { $.m.res = side(); print $.m }", "{\"made\": 2, \"res\": \"r\"}\n{\"made\": 5, \"res\": \"r\"}\n"},
+	// ... also when the store goes deeper: the missing member is created as an object or array, as under any other name
+	{"BEGIN { o = {}; o.length.x = 1; o.pluck[1] = 'p'; o.sort.by.key++; print o, o.length.x, o.pluck.length() }", "{\"length\": {\"x\": 1}, \"pluck\": [null, \"p\"], \"sort\": {\"by\": {\"key\": 1}}} 1 2\n"},
+	{"{ $.contains.n = $.i; $.split.length = 1; print $ }", "{\"a\": 3, \"contains\": {\"n\": 2}, \"i\": 2, \"length\": 1, \"pluck\": \"x\", \"split\": {\"length\": 1}, \"v\": 7}\n{\"a\": 3, \"contains\": {\"n\": 5}, \"i\": 5, \"length\": 1, \"pluck\": \"x\", \"split\": {\"length\": 1}, \"v\": 8}\n"},
 	{"{ $.push = $.a; $.sort = $.push + 1; print $ }", "{\"a\": 3, \"i\": 2, \"length\": 1, \"pluck\": \"x\", \"push\": 3, \"sort\": 4, \"v\": 7}\n{\"a\": 3, \"i\": 5, \"length\": 1, \"pluck\": \"x\", \"push\": 3, \"sort\": 4, \"v\": 8}\n"},
 }
 
@@ -703,7 +728,7 @@ func c09Run(c *Case) {
 func init() {
 	register(&Prop{
 		ID: "C09", Level: "exploration",
-		Rule:          "sampled histories of 3-25 statements over 3 variables and $-paths into a generated document: stores to existing/missing/unset bases (chains to depth 4; indices in range, at length, past the end, negative in and out of range), compound assignments, ++/-- (value of prefix/postfix forms printed), reads, aliasing (b = a, containers stored in containers, parameters, loop variables) followed by element stores through one name; after EVERY statement the program prints json() of every live variable and of $, and the run ends with the -o document: all compared path by path with the reference model's heap. Candidate statements that would leave the stated semantics are discarded using the model. Read-only slice: {print e} / e{} / printf %v with e free of assignments and mutating calls: -o document must equal the input. 7 enumerated alias-resize forms (length change through one of two references). Non-trivial = history with >= 1 store and >= 2 statements (every statement is followed by a dump of all other locations); distinct by program text.",
+		Rule:          "sampled histories of 3-25 statements over 3 variables and $-paths into a generated document: stores to existing/missing/unset bases (chains to depth 4; indices in range, at length, past the end, negative in and out of range), compound assignments, ++/-- (value of prefix/postfix forms printed), reads, aliasing (b = a, containers stored in containers, parameters, loop variables) followed by element stores through one name; after EVERY statement the program prints json() of every live variable and of $, and the run ends with the -o document: all compared path by path with the reference model's heap. Candidate statements that would leave the stated semantics are discarded using the model. Read-only slice: {print e} / e{} / printf %v with e free of assignments and mutating calls: -o document must equal the input. 7 enumerated alias-resize forms (length change through one of two references). Non-trivial = history with >= 1 store and >= 2 statements (every statement is followed by a dump of all other locations); distinct by program text. One statement kind stores to two locations under a common, often missing, prefix in one statement (t.k1 = t.k2 = v, also t[i] = t[j] = v and deeper): the location the right-hand side creates is kept. Method names (length, pluck) are ordinary keys for stores of any depth.",
 		NumCases:      c09Cases,
 		Run:           c09Run,
 		MinConclusive: func(tier string) int { return 3000 },
